@@ -227,51 +227,57 @@ func runAllocs(s *stor.Stor, chunk int, scripts [][]allocStep, inAlloc *atomic.I
 // Goroutine g allocates rounds times, size sizes[g][(k*stride[g]) % len].
 // The first and last byte of each region carry a private tag, checked at the end.
 func runDense(s *stor.Stor, chunk int, sizes [][]int, stride []int, rounds int) allocHistory {
-	recs := make([][]region, len(sizes))
-	bufs := make([][][]byte, len(sizes))
+	type rec struct {
+		off uint64
+		buf []byte
+		pan string
+	}
+	recs := make([][]rec, len(sizes))
 	var wg sync.WaitGroup
 	start := make(chan struct{})
 	for g := range sizes {
 		wg.Add(1)
 		go func(g int) {
 			defer wg.Done()
-			p := sizes[g]
-			rs := make([]region, 0, rounds)
-			bs := make([][]byte, 0, rounds)
-			alloc := func(n int) (off uint64, buf []byte, pan string) {
+			p, st := sizes[g], stride[g]
+			rs := make([]rec, rounds)
+			// loop allocates from k on until done or until Alloc panics
+			// (one deferred recover per panic, not per allocation)
+			loop := func(k int) (next int) {
+				next = k + 1
 				defer func() {
 					if e := recover(); e != nil {
-						pan = fmt.Sprint(e)
+						rs[next-1].pan = fmt.Sprint(e)
 					}
 				}()
-				off, buf = s.Alloc(n)
-				return
+				for ; k < rounds; k++ {
+					next = k + 1
+					off, buf := s.Alloc(p[(k*st)%len(p)])
+					rs[k].off, rs[k].buf = off, buf
+					buf[0] = byte(g*37 + k)
+					buf[len(buf)-1] = byte(g*37 + k)
+				}
+				return rounds
 			}
 			<-start
-			for k := 0; k < rounds; k++ {
-				n := p[(k*stride[g])%len(p)]
-				off, buf, pan := alloc(n)
-				r := region{G: g, Seq: k, N: n, Off: off, Len: len(buf), Cap: cap(buf), Panic: pan, Size: ^uint64(0) >> 1}
-				if pan == "" && len(buf) > 0 {
-					buf[0] = pat(g, k, 0)
-					buf[len(buf)-1] = pat(g, k, 0)
-				}
-				rs = append(rs, r)
-				bs = append(bs, buf)
+			for k := 0; k < rounds; {
+				k = loop(k)
 			}
-			recs[g], bufs[g] = rs, bs
+			recs[g] = rs
 		}(g)
 	}
 	close(start)
 	wg.Wait()
 	h := allocHistory{Chunk: uint64(chunk), EndSize: s.Size(), Regions: make([]region, 0, len(sizes)*rounds)}
 	for g := range recs {
-		for i := range recs[g] {
-			r := &recs[g][i]
-			if b := bufs[g][i]; r.Panic == "" && len(b) > 0 && (b[0] != pat(g, r.Seq, 0) || b[len(b)-1] != pat(g, r.Seq, 0)) {
-				r.Bad = fmt.Sprintf("tag bytes are %#x/%#x, written %#x", b[0], b[len(b)-1], pat(g, r.Seq, 0))
+		for k := range recs[g] {
+			x := &recs[g][k]
+			r := region{G: g, Seq: k, N: sizes[g][(k*stride[g])%len(sizes[g])], Off: x.off, Len: len(x.buf), Cap: cap(x.buf),
+				Panic: x.pan, Size: ^uint64(0) >> 1}
+			if b := x.buf; x.pan == "" && len(b) > 0 && (b[0] != byte(g*37+k) || b[len(b)-1] != byte(g*37+k)) {
+				r.Bad = fmt.Sprintf("tag bytes are %#x/%#x, written %#x", b[0], b[len(b)-1], byte(g*37+k))
 			}
-			h.Regions = append(h.Regions, *r)
+			h.Regions = append(h.Regions, r)
 		}
 	}
 	return h
@@ -343,7 +349,7 @@ func allocCanon(chunk int, scripts [][]allocStep) string {
 
 // TestC18: concurrent storage allocations never overlap.
 func TestC18(t *testing.T) {
-	rec := ev.New("C18", "sequential: one goroutine, generated sizes (1..chunk, weighted to small / near-chunk / exactly chunk) on HeapStor with chunk 64..4096, offsets compared with an exact next-fit model; concurrent: 2-16 goroutines with generated (size, yield) scripts (<= 60 allocations each) on a Stor with chunk 64..4096 (real HeapStor, or the same Stor over a heap storage whose chunk Get yields while extend holds its lock), private pattern per region, all regions re-read at the end. Non-trivial (concurrent): >= 2 goroutines, >= 3 chunks used and a measured collision with extend (an extend that ran while another goroutine was inside Alloc, an offset skipped inside a chunk, or retry exhaustion). Distinct = by script.")
+	rec := ev.New("C18", "sequential: one goroutine, generated sizes (1..chunk, weighted to small / near-chunk / exactly chunk) on HeapStor with chunk 64..4096, offsets compared with an exact next-fit model; concurrent: 2-16 goroutines with generated (size, yield) scripts (<= 60 allocations each) on a Stor with chunk 64..4096 (real HeapStor, or the same Stor over a heap storage whose chunk Get yields while extend holds its lock), private pattern per region, all regions re-read at the end. Non-trivial (concurrent): >= 2 goroutines, >= 3 chunks used and a measured collision with extend (an extend that ran while another goroutine was inside Alloc, an offset skipped inside a chunk, or retry exhaustion). dense: 200 runs on the real HeapStor with chunk 32/64/128, 6-16 goroutines each allocating 1000/2000/4000 times back to back (sizes cycled from a generated pattern of 5-32 sizes, 80 % uniform 1..chunk), nothing between two Alloc calls but recording the result, so that chunk crossings and concurrent extends dominate; same oracle on the recorded ranges plus a tag byte at both ends of each region; non-trivial: >= 100 chunks used and an offset skipped inside a chunk or retry exhaustion. Distinct = by script.")
 	rec.Assumptions = []string{
 		"the panic \"" + retryPanic + "\" is the documented loud failure; any other panic of Alloc is a violation",
 		"interleavings are whatever the Go scheduler produces with generated yields (no scheduler control)",
@@ -470,9 +476,9 @@ func TestC18(t *testing.T) {
 
 	// dense: tiny chunks, sizes up to the chunk size, 6-12 goroutines allocating
 	// back to back so that chunk crossings and concurrent extends dominate.
-	rt.Check(t, rec, "dense", 300, 500, func(t *rapid.T) {
+	rt.Check(t, rec, "dense", 200, 150, func(t *rapid.T) {
 		chunk := gen.Pick(t, "chunk", []int{32, 64, 64, 64, 128})
-		ng := 6 + gen.Uniform(t, "ng", 7)
+		ng := 6 + gen.Uniform(t, "ng", 11)
 		rounds := gen.Pick(t, "rounds", []int{1000, 2000, 4000})
 		sizes := make([][]int, ng)
 		stride := make([]int, ng)
